@@ -45,9 +45,9 @@ func init() {
 		Rule: "table: every registered name (enumerated from the real registry through the verif hook) x {upper, lower, mixed case} x mask on/off compared with the OF1.3.5/OVS width table, plus unregistered names that must give an error; words: MarshalHeader(UnmarshalHeader(w)) == w and UnmarshalHeader(MarshalHeader(h)) == h over header words (quick: all 65536 classes x 64 low halves, all 65536 low halves x 64 classes, 2^22 PRNG words; thorough: all 2^32 words); indep: G goroutines look up names concurrently, check the result against the pristine entry at return, overwrite every field of their result, then the registry is compared with its snapshot - under the race detector. Header words are counted in evaluations; being a plain enumeration of distinct integers only one hash per 65536-word chunk enters the distinct set, table and indep items are hashed individually. Non-trivial: every item",
 		NumCases: func(tier string, seed uint64) int {
 			if tier == "thorough" {
-				return 1 + 4096 + 24
+				return 1 + 4096 + 24 + 64
 			}
-			return 1 + 64 + 64 + 64 + 8
+			return 1 + 64 + 64 + 64 + 8 + 8
 		},
 		Gen: func(tier string, seed uint64, i int) any {
 			if i == 0 {
@@ -59,6 +59,9 @@ func init() {
 					return &c15Case{Family: "words-all", Lo: uint64(i) << 20, Hi: uint64(i+1) << 20}
 				}
 				i -= 4096
+				if i >= 24 {
+					return &c15Case{Family: "after-use", Lo: uint64(i - 24)}
+				}
 				return &c15Case{Family: "indep", Lo: uint64(i), G: []int{2, 4, 16, 64}[i%4]}
 			}
 			if i < 64 {
@@ -73,6 +76,9 @@ func init() {
 				return &c15Case{Family: "words-rand", Lo: uint64(i)}
 			}
 			i -= 64
+			if i >= 8 {
+				return &c15Case{Family: "after-use", Lo: uint64(i - 8)}
+			}
 			return &c15Case{Family: "indep", Lo: uint64(i), G: []int{2, 4, 16, 64}[i%4]}
 		},
 		NewCase: func() any { return new(c15Case) },
@@ -100,10 +106,22 @@ func init() {
 	})
 }
 
+var c15Cold sync.Once
+
 func c15Eval(c *fw.Ctx, data any) {
 	cs := data.(*c15Case)
+	// the first thing every worker process does with the library: concurrent first use (C14's storm, which begins
+	// with name lookups in non-canonical spellings) under the race detector
+	c15Cold.Do(func() { coldStorm(c, c.Seed) })
 	switch cs.Family {
 	case "table":
+		c15Table(c)
+	case "after-use":
+		// the whole table once more after a few hundred other uses of the library (match fields through every
+		// constructor, tunnel metadata of every size, ranges, builders; returned values edited): lookups give what
+		// they gave in a fresh process
+		apiNoise(prng.Derive(c.Seed, 1515, cs.Lo), 300)
+		c.Count("tables_after_other_use", 1)
 		c15Table(c)
 	case "words-class":
 		// all 65536 classes for the low half chosen by index
